@@ -940,4 +940,135 @@ def _join_non_none(primacy, other):""")]),
             if True:
 
                 def set_index_and_location(idx_arg):""")]),
+    # ------------------------------------------------------------------ WRAP (C18): writer / reader as inverse layouts
+    dict(id="wrapbreaks-defaults-again", kind=B, props=["C18"], expect="WRAP-BREAKS", edits=[("pure_utils.py",
+         """fill = partial(
+    _fill, width=line_length, break_long_words=False, break_on_hyphens=False
+)""", """fill = partial(_fill, width=line_length)""")]),
+    dict(id="wrapbreaks-hyphens-only", kind=B, props=["C18"], expect="WRAP-BREAKS", edits=[("pure_utils.py",
+         """    _fill, width=line_length, break_long_words=False, break_on_hyphens=False""",
+         """    _fill, width=line_length, break_long_words=False""")]),
+    dict(id="wrapbreaks-direct-call-site", kind=B, props=["C18"], expect="WRAP-BREAKS", edits=[("emitter_utils.py",
+         """            indent_all_but_first(fill(s), indent_level + 1, wipe_indents=True)""",
+         """            indent_all_but_first(fill(s, break_long_words=True), indent_level + 1, wipe_indents=True)""")]),
+    dict(id="wrapbreaks-nested-partial", kind=N, props=["C18"], expect="silent", edits=[("pure_utils.py",
+         """fill = partial(
+    _fill, width=line_length, break_long_words=False, break_on_hyphens=False
+)""", """_fill_at_blanks = partial(_fill, break_long_words=False, break_on_hyphens=False)
+fill = partial(_fill_at_blanks, width=line_length)""")]),
+    dict(id="wrapcont-fill-after-indent", kind=B, props=["C18"], expect="WRAP-CONT", edits=[("docstring_utils.py",
+         """                    indent(
+                        _fill(
+                            set_default_doc(
+                                (name, _param), emit_default_doc=emit_default_doc
+                            )[1]["doc"]
+                        ),
+                        tab,
+                    )""", """                    _fill(
+                        indent(
+                            set_default_doc(
+                                (name, _param), emit_default_doc=emit_default_doc
+                            )[1]["doc"],
+                            tab,
+                        )
+                    )""")]),
+    dict(id="wrapcont-rest-indenter-dropped", kind=B, props=["C18"], expect="WRAP-CONT", edits=[("docstring_utils.py",
+         """            map(
+                indent_all_but_first,
+                map(
+                    _fill,""", """            iter(
+                map(
+                    _fill,""")]),
+    dict(id="wrapcont-header-wrapped", kind=B, props=["C18"], expect="WRAP-CONT", edits=[("docstring_utils.py",
+         """                    (
+                        (_param["typ"] if _param.get("typ") else None)
+""", """                    _fill(
+                        (_param["typ"] if _param.get("typ") else None)
+""")]),
+    dict(id="wrapcont-via-local", kind=N, props=["C18"], expect="silent", edits=[("docstring_utils.py",
+         """    elif style == "numpydoc":
+        return "\\n".join(""", """    elif style == "numpydoc":
+        wrapped_doc = _fill(set_default_doc((name, _param), emit_default_doc=emit_default_doc)[1]["doc"]) if emit_doc and _param.get("doc") else None
+        return "\\n".join("""), ("docstring_utils.py", """                    indent(
+                        _fill(
+                            set_default_doc(
+                                (name, _param), emit_default_doc=emit_default_doc
+                            )[1]["doc"]
+                        ),
+                        tab,
+                    )""", """                    indent(wrapped_doc, tab)""")]),
+    dict(id="wrapcont-via-local-emitted-raw", kind=B, props=["C18"], expect="WRAP-CONT", edits=[("docstring_utils.py",
+         """    elif style == "numpydoc":
+        return "\\n".join(""", """    elif style == "numpydoc":
+        wrapped_doc = _fill(set_default_doc((name, _param), emit_default_doc=emit_default_doc)[1]["doc"]) if emit_doc and _param.get("doc") else None
+        return "\\n".join("""), ("docstring_utils.py", """                    indent(
+                        _fill(
+                            set_default_doc(
+                                (name, _param), emit_default_doc=emit_default_doc
+                            )[1]["doc"]
+                        ),
+                        tab,
+                    )""", """                    wrapped_doc""")]),
+    dict(id="rejoin-dehyphenate", kind=B, props=["C18"], expect="REJOIN-UNIFORM", edits=[("docstring_parsers.py",
+         """                " ".join(map(str.strip, _param["doc"].split("\\n")))""",
+         """                "".join(line if line.endswith("-") else "{} ".format(line) for line in map(str.strip, _param["doc"].split("\\n")))""")]),
+    dict(id="rejoin-no-blank", kind=B, props=["C18"], expect="REJOIN-UNIFORM", edits=[("docstring_parsers.py",
+         """                " ".join(map(str.strip, _param["doc"].split("\\n")))""",
+         """                "".join(map(str.strip, _param["doc"].split("\\n")))""")]),
+    dict(id="rejoin-generator-form", kind=N, props=["C18"], expect="silent", edits=[("docstring_parsers.py",
+         """                " ".join(map(str.strip, _param["doc"].split("\\n")))""",
+         """                " ".join(line.strip() for line in _param["doc"].split("\\n"))""")]),
+    dict(id="scanrejoin-late-sweep-dropped", kind=B, props=["C18"], expect="SCAN-AFTER-REJOIN", edits=[("docstring_parsers.py",
+         """    if style is Style.rest:
+        ir.update(""", """    if style is Style.rest and False:
+        ir.update(""")]),
+    dict(id="scanrejoin-late-sweep-for-google-only", kind=B, props=["C18"], expect="SCAN-AFTER-REJOIN", edits=[("docstring_parsers.py",
+         """    if style is Style.rest:
+        ir.update(""", """    if style is Style.google:
+        ir.update(""")]),
+    dict(id="scanrejoin-numpy-returns-reader-first", kind=B, props=["C18"], expect="SCAN-AFTER-REJOIN", edits=[("docstring_parsers.py",
+         """                    _interpolate_defaults_and_force_future_default(
+                        _set_name_and_type(
+                            (
+                                "return_type",
+""", """                    _set_name_and_type(
+                        _interpolate_defaults_and_force_future_default(
+                            (
+                                "return_type",
+"""), ("docstring_parsers.py", """                                },
+                            ),
+                            infer_type=infer_type,
+                            word_wrap=word_wrap,
+                        ),
+                    ),
+                ),
+            )""", """                                },
+                            ),
+                        ),
+                        infer_type=infer_type,
+                        word_wrap=word_wrap,
+                    ),
+                ),
+            )""")]),
+    dict(id="scanrejoin-late-sweep-named-helper", kind=N, props=["C18"], expect="silent", edits=[("docstring_parsers.py",
+         """    if style is Style.rest:
+        ir.update(
+            {
+                k: OrderedDict(
+                    map(
+                        partial(
+                            interpolate_defaults, emit_default_doc=emit_default_doc
+                        ),
+                        ir[k].items(),
+                    )
+                )
+                if ir[k]
+                else ir[k]
+                for k in ("params", "returns")
+            }
+        )""", """    if style is Style.rest:
+        read_again = partial(interpolate_defaults, emit_default_doc=emit_default_doc)
+        for k in ("params", "returns"):
+            if ir[k]:
+                ir[k] = OrderedDict(map(read_again, ir[k].items()))""")]),
 ]
